@@ -229,6 +229,14 @@ func (x *Enc) encodeTop() {
 	// vacuity guard: a ghost call counter that watches no call site would make every clause about it vacuous
 	if x.con != nil {
 		for _, cs := range x.con.Counts {
+			if strings.HasPrefix(cs[0], "!forbid:") {
+				goal := "true"
+				if x.countHits[cs[0]] > 0 {
+					goal = "false"
+				}
+				x.addObl("forbid", fmt.Sprintf("%s.forbid[%s].no_call_site", shortFn(fn), cs[1]), "the function must not call "+cs[1], token.NoPos, "true", goal)
+				continue
+			}
 			if x.countHits[cs[0]] == 0 {
 				x.addObl("vacuity", fmt.Sprintf("%s.count[%s].matches_a_call_site", shortFn(fn), cs[0]), "count pattern "+cs[1]+" matches no call in the function", token.NoPos, "true", "false")
 			}
